@@ -11,6 +11,20 @@ import re
 
 
 PROPS = {
+    "C03": {
+        "coq_targets": ["theories/RT/CtxProofs.vo"],
+        "harness": ["c03"],
+        "disagreement_is_violation": True,
+        "axioms": [],
+        "trusted_base": COMMON_TB + [
+            "modelled, not verified: rusty_basic/src/interpreter/context.rs (begin_collecting_arguments, stop_collecting_arguments, stop_collecting_arguments_static, pop, drop_arguments_for_array_allocation, push_error_handler_context, do_pop with Vec::remove and the index fix-up, MemoryBlock reference counting) as RT/Ctx.v; variables are abstracted to the identity of their block",
+            "harness/src/c03.rs: drives the real Context through its public methods, reads its structure through the hooks verif_states / verif_memory_blocks / verif_static_map, marks each new block with a variable; 23 scenario programs and a generator of call histories with a direct evaluator of the expected output",
+            "NOT modelled: argument passing (by reference / by value by argument shape), by-ref write-back queue, function result stashing, SHARED resolution at code generation - decided by the scenarios and histories only",
+        ],
+        "assumptions": [
+            "operation sequences respect the preconditions the generated code guarantees (an argument state on top before stop/drop, a normal state before pop); C15 checks that protocol on every program",
+        ],
+    },
     "C05": {
         "coq_targets": ["theories/RT/ControlProofs.vo"],
         "harness": ["c05"],
